@@ -6,6 +6,7 @@ CONSTANTS
   NPats = 2
   Confl = TRUE
   Ops = {"join", "unjoin", "select", "slice", "concat"}
+  InitKinds = {"plain", "shared"}
 INIT Init
 NEXT Next
 INVARIANT TypeOK
